@@ -288,7 +288,7 @@ func vfC10Prepare(c vfC10Case, root string) (dir, out, casePath string) {
 		}
 	}
 	conf := vfConf{DeviceName: "c10", Min: sc.Min, Max: sc.Max, Prev: sc.Prev, Cont: sc.Cont, MinDiskMB: 1, BucketS: 600, RefillS: 600,
-		WinStart: "12:00", WinEnd: "12:00", Motion: vfSimpleMotion(sc.Trigger, sc.Edge)}
+		WinStart: "12:00", WinEnd: "12:00", Motion: sc.motionConf()}
 	if err := vfWriteConfig(dir, out, conf); err != nil {
 		panic(err)
 	}
